@@ -133,7 +133,7 @@ func init() {
 		ID:        "C02",
 		Technique: "static analysis: path enumeration with boolean implication over the slice validators and the contiguity marker; term extraction and sibling comparison of the two slice-length calculators; structural co-slicing rule; guard census",
 		Explain: "Decides: (S3) CheckSlice accepts only when start <= end, start >= 0, not(step == 0 and end-start > 1), start < size, and SliceDetails validates every non-nil slice, clamps end and expands nil to (0,size,1); (S4) AP.S and Shape.S refuse more slices than axes and take (start,end,step) of every axis from SliceDetails; (S5) the length term under step > 0 is ceil((end-start)/step) with no extra condition, identical in both calculators; (S9) Slice/SliceInto take window and access pattern from one AP.S call, slice data and mask with the same window, record the parent and copy dtype/engine/flag. " +
-			"(S12) the sliced access pattern is marked NonContiguous at least when a non-outermost axis of a non-vector is sliced or a step > 1 is taken, with the outermost axis chosen by data order (names bound structurally). Not decided: offset (ndStart/ndEnd) arithmetic, stride scaling, which dimensions are dropped. Round 7: (L0) the layout predicates every view-aware guard relies on equal their table definitions (flow-sensitive extraction, measurement comparisons as free variables); (S9) a view handed in for reuse keeps neither a pending lazy transpose nor a mask. Round 11: (T15) SafeT/T install the pattern AP.T returned, order flag included; (NC) the NonContiguous mark is never cleared on gaplessness alone; (L0) IsVectorLike decided also when written over single stride elements; (O13). Round 13: (S22) Ltoi adds coordinate times the stride of its own axis; (WP) tensor.Narrow and the Narrow method are the same code.",
+			"(S12) the sliced access pattern is marked NonContiguous at least when a non-outermost axis of a non-vector is sliced or a step > 1 is taken, with the outermost axis chosen by data order (names bound structurally). Not decided: offset (ndStart/ndEnd) arithmetic, stride scaling, which dimensions are dropped. Round 7: (L0) the layout predicates every view-aware guard relies on equal their table definitions (flow-sensitive extraction, measurement comparisons as free variables); (S9) a view handed in for reuse keeps neither a pending lazy transpose nor a mask. Round 11: (T15) SafeT/T install the pattern AP.T returned, order flag included; (NC) the NonContiguous mark is never cleared on gaplessness alone; (L0) IsVectorLike decided also when written over single stride elements; (O13). Round 13: (S22) Ltoi adds coordinate times the stride of its own axis; (WP) tensor.Narrow and the Narrow method are the same code. Round 15: (I4) the iterator's vector fast path; (O6) a recycled tensor header carries no mask.",
 		Run: func(rc *rules.RC) {
 			rules.I4(rc)
 			rules.O6(rc)
@@ -163,7 +163,7 @@ func init() {
 		ID:        "C13",
 		Technique: "static analysis: term extraction and sibling comparison of shape calculators; path enumeration with boolean implication over the reshape gate, the contiguity marker and the repeat destination check; lock typestate of access patterns over canonical paths; unique-owner analysis over SSA",
 		Explain: "Decides: (S5) the shape-only slice calculator and the access-pattern slice calculator compute the same length term, which is ceil((end-start)/step); (S4) both validate through SliceDetails and refuse too many slices; (S7) every path of Reshape that reaches reshape() has established equal total size, is not a non-contiguous view and has materialised a pending lazy transpose, and reshape() only sets the shape and checks sanity; (O8) for the metadata-invariant clause: no two tensors own the same shape/strides slices (an alias lets one tensor's reshape or recycling zero the other's shape); (S12) AP.S marks sliced views NonContiguous (the flag Reshape's refusal keys on); (S14) every call of the lock-respecting AP.SetShape happens on a pattern unlocked on every path (otherwise the shape is silently not installed and size != product of shape); (L1) RepeatReuse accepts a destination only when its shape is the computed result shape. " +
-			"Not decided: that shape and strides address distinct in-bounds positions (a runtime invariant over values), that reshape preserves the flat sequence, repeat/concat calculators' arithmetic. Round 7: (DC) Repeat has no shortcut result beside its worker; (S21) the concat calculator's axis bounds are two-sided; (T14) composition order; (EP) refusals precede effects (Reshape, Transpose). Round 11: (NC) mark-clearing rule; (RS) raw-reshape typestate. Round 13: (UP); (SW) Slice and SliceInto cut the same window.",
+			"Not decided: that shape and strides address distinct in-bounds positions (a runtime invariant over values), that reshape preserves the flat sequence, repeat/concat calculators' arithmetic. Round 7: (DC) Repeat has no shortcut result beside its worker; (S21) the concat calculator's axis bounds are two-sided; (T14) composition order; (EP) refusals precede effects (Reshape, Transpose). Round 11: (NC) mark-clearing rule; (RS) raw-reshape typestate. Round 13: (UP); (SW) Slice and SliceInto cut the same window. Round 15: (O6, O6p) a recycled tensor header carries no saved pattern, on every path.",
 		Run: func(rc *rules.RC) {
 			rules.O6(rc)
 			rules.O6p(rc)
@@ -201,7 +201,7 @@ func init() {
 		ID:        "C03",
 		Technique: "static analysis: SSA field-event typestate of the lazy-transpose triple, unique-owner analysis of access patterns, sibling comparison of per-width and per-build transpose kernels and of the two transposed-index computations, path rules on Transpose/UT",
 		Explain: "Decides: (T1) whoever gives an object a saved access pattern (old) also gives it transposeWith and AP; (T2) old and transposeWith are cleared together; (T4) Transpose recomputes the default strides of the current shape by data order and installs them after the move and discards the thunk, UT restores exactly the saved AP, calcStrides selects the routine by order; (T6) Dense.transposeIndex (in-place build) and TransposeIndex accumulate the same sum oldCoord[pattern[k]]*newStrides[k]; (K1w) the 1/2/4/8-byte transpose kernels are one algorithm, in both builds; (O8) SafeT/T(api)/Transpose(api)/Clone hand the copy its own access patterns (no alias of the source's shape/strides, so undoing or materialising one tensor cannot wipe the other); (B1) both transpose builds declare the same functions; (SV) no access pattern computed before a materialising Transpose()/UT()/Reshape is installed or used after it; (T7) the inverse shortcut of Dense.T decides on the permutations, not on shapes; (L1) the shortcut is taken only for a true vector or a recognised inverse; (WC) the pre-transpose accessors are read only by transposition itself and the BLAS gateways. " +
-			"Not decided: that the permutation arithmetic (UnsafePermute, cycle following, iterator order) is the right permutation; the composition law. Round 7: (T14) the saved permutation is the outer one wherever it is composed with another index vector; (T9) every successful return of the engine's Transpose has gone through the width dispatcher; (EP) refusals precede effects. Round 11: (T15) the transposed pattern is installed unchanged; (RS) the raw reshape is used only where no lazy transposition can be pending. Round 13: (UP) UnsafePermute exchanges elements by its pattern on every path.",
+			"Not decided: that the permutation arithmetic (UnsafePermute, cycle following, iterator order) is the right permutation; the composition law. Round 7: (T14) the saved permutation is the outer one wherever it is composed with another index vector; (T9) every successful return of the engine's Transpose has gone through the width dispatcher; (EP) refusals precede effects. Round 11: (T15) the transposed pattern is installed unchanged; (RS) the raw reshape is used only where no lazy transposition can be pending. Round 13: (UP) UnsafePermute exchanges elements by its pattern on every path. Round 15: (LC) raw copies on the materialise path; (I15) the column-major stepper flags exhaustion on its last axis.",
 		Quick: []string{"default", "inplacetranspose"},
 		Run: func(rc *rules.RC) {
 			rules.LC(rc, 18)
@@ -296,7 +296,7 @@ func init() {
 		ID:        "C15",
 		Technique: "static analysis: mask-predicate table conformance of every typed arm, arm uniformity and type coherence, iterator mask polarity/duality, co-slicing of the mask, offset identity of mask access, sibling-pair duality of the mask inspections, guard goals on whole-mask folds",
 		Explain: "Decides: (K8) in every typed arm of Masked{Equal,NotEqual,Greater,GreaterEqual,Less,LessEqual,Inside,Outside} the soft branch stores mask[i] = P(a) and the hard branch mask[i] = mask[i] || P(a) with P from the predicate table; (K1arms/K3) the arms agree and use their own label type; (I1,I2) masked iteration treats a set bit as invalid, in NextValidity/NextValid/NextInvalid of both masked iterator types; (S9) Slice/SliceInto slice the mask with the data window; (S2) MaskAt/SetMaskAt address the mask at the same offset as the data element (maskAt is at); (T-mask) both transpose builds move the mask before the data; (SP) FlatMasked*/FlatNotMasked* and doMaskAll/doMaskAny are mirror images up to polarity; (L1) the whole-mask folds of MaskedAll/Any/Count run only when the mask covers exactly the tensor's elements; (E1) Filled/FilledInplace and the mask helpers never work on a result under its own err != nil. " +
-			"Not decided: counts, run/edge finders, fill values, that valid positions get the unmasked value of elementwise operations. Round 7: (O6) a recycled tensor header carries neither mask nor mask policy into its next life. Round 11: (MI) the edge and run finders answer through an iterator on every path; (MM) makeMask only where no mask exists; (TMask) the string transpose kernel moves the mask too. Round 13: (IM) IteratorFromDense returns the plain iterator only for a tensor found unmasked.",
+			"Not decided: counts, run/edge finders, fill values, that valid positions get the unmasked value of elementwise operations. Round 7: (O6) a recycled tensor header carries neither mask nor mask policy into its next life. Round 11: (MI) the edge and run finders answer through an iterator on every path; (MM) makeMask only where no mask exists; (TMask) the string transpose kernel moves the mask too. Round 13: (IM) IteratorFromDense returns the plain iterator only for a tensor found unmasked. Round 15: (MC) makeMask yields an all-false mask on every path; (O6p).",
 		Quick: []string{"default", "inplacetranspose"},
 		Run: func(rc *rules.RC) {
 			rules.MC(rc)
@@ -366,7 +366,7 @@ func init() {
 		ID:        "C09",
 		Technique: "static analysis: BLAS argument conformance by per-path term propagation against a reference table derived from the row-major BLAS convention; BLAS-gateway goals (every trans flag / leading dimension derives from a test of that operand's own state on every path) by path enumeration and implication; arm uniformity and precision-letter coherence of the typed BLAS arms; ownership analysis of scratch slices and recycled tensors",
 		Explain: "Decides: (LB) on every path to a BLAS call in MatMul/MatVecMul/Outer the lazy-transpose state and data order of each operand were branched on (a flag taken from the wrong operand, or a merged test, is reported); (L1) whether the operands' need for an iterator was consulted at all (it is not: known finding 15); (K1arms/K3) the float32/float64/complex64/complex128 arms call the same routine with the same argument pattern and the right precision letter; (O3/O7/O8) axes arguments are not mutated, only function-local tensors are recycled (handleIncr guard), scratch access patterns are not aliases of an operand's. " +
-			"(LD) on every feasible path of MatVecMul, MatMul, Outer and Inner each argument of the gemv/gemm/ger/dot call - transposition flags, dimensions, leading dimensions, buffers, operand order - is the one the operand's data order, lazy-transpose state and logical shape require under the row-major BLAS convention (term propagation along the path against a derived reference; 41 layout cases); (P2) the gateways and their callers do not write their operands (Dot and Outer do: known findings 13, 14). Not decided: the routines themselves (trusted by name), the reshape/permutation arithmetic of TensorMul/Contract, Dot's dispatch table beyond delegation, rounding. Round 7: (K1w/T8/T9) the copying transpose kernels the general contraction relies on; (PI) parameter integrity of the wrappers; L1 goals on the float engines' Inner (finding 79). Round 11: (LP) the destination handed to the engine's MatVecMul/MatMul/Outer was normalised by handleReuse or created by the method. Round 13: (LN) no conjugating BLAS routine in any arm; (S9) a reused view header forgets its pending transposition.",
+			"(LD) on every feasible path of MatVecMul, MatMul, Outer and Inner each argument of the gemv/gemm/ger/dot call - transposition flags, dimensions, leading dimensions, buffers, operand order - is the one the operand's data order, lazy-transpose state and logical shape require under the row-major BLAS convention (term propagation along the path against a derived reference; 41 layout cases); (P2) the gateways and their callers do not write their operands (Dot and Outer do: known findings 13, 14). Not decided: the routines themselves (trusted by name), the reshape/permutation arithmetic of TensorMul/Contract, Dot's dispatch table beyond delegation, rounding. Round 7: (K1w/T8/T9) the copying transpose kernels the general contraction relies on; (PI) parameter integrity of the wrappers; L1 goals on the float engines' Inner (finding 79). Round 11: (LP) the destination handed to the engine's MatVecMul/MatMul/Outer was normalised by handleReuse or created by the method. Round 13: (LN) no conjugating BLAS routine in any arm; (S9) a reused view header forgets its pending transposition. Round 15: (TR) Trace walks the diagonal by the operand's own two strides.",
 		Run: func(rc *rules.RC) {
 			rules.TR(rc)
 			rules.S9(rc)
@@ -406,7 +406,7 @@ func init() {
 		ID:        "C10",
 		Technique: "static analysis: layout-accumulator implication check, layout-guard goals on the block-copy paths, width-family uniformity of the view-stack kernels, loop-cursor discipline, ownership of the repeats/axes arguments",
 		Explain: "Decides: (LA) the flag that selects StackDense's raw block-copy path is true only if no operand requires an iterator (initial value and every loop path, by implication); (L1) the block-copy calls are guarded by it, and whether denseRepeat consults the operand's layout (it does not: known finding 32); (K1w) doViewStack1/2/4/8 are one algorithm; (E2) in every loop of the stacking/repetition code a cursor advanced at the end of the body is advanced on every continue path; (O2/O3) repeats and shapes passed by the caller are neither kept nor modified; (L1) Hstack stacks along axis 0 only for rank-1 receivers and RepeatReuse accepts a destination only of the computed shape; (LC/LF) a new raw block copy or flat element loop must be layout-guarded; (P2) concat/stack/repeat do not write their operands (denseConcat does: known finding 16). " +
-			"Not decided: block-copy offsets/strides of denseRepeat and denseSimpleStack, the slice-and-assign placement of denseConcat, data-order agreement of stacked operands (finding 19). Round 7: (DC) every successful return of Repeat/RepeatReuse/Concat has gone through denseRepeat/denseConcat; (MZ) Materialize yields row-major storage; (S21) Shape.Concat accepts only 0 <= axis < rank. Round 11: the memcpy path of copyDenseIter (through which Concat assigns) requires equal data order. Round 13: (VH) Vstack/Hstack concatenate along their literal axes; (DC) Dense.Repeat always goes through the engine.",
+			"Not decided: block-copy offsets/strides of denseRepeat and denseSimpleStack, the slice-and-assign placement of denseConcat, data-order agreement of stacked operands (finding 19). Round 7: (DC) every successful return of Repeat/RepeatReuse/Concat has gone through denseRepeat/denseConcat; (MZ) Materialize yields row-major storage; (S21) Shape.Concat accepts only 0 <= axis < rank. Round 11: the memcpy path of copyDenseIter (through which Concat assigns) requires equal data order. Round 13: (VH) Vstack/Hstack concatenate along their literal axes; (DC) Dense.Repeat always goes through the engine. Round 15: (L0) IsMaterializable, on which Repeat's densification relies; (IP2) every stacked operand has an iterator of its own, also under branches of the loop.",
 		Run: func(rc *rules.RC) {
 			rules.L0(rc, func(fn string) bool { return strings.HasSuffix(fn, ".IsMaterializable") })
 			rules.VH(rc)
@@ -488,7 +488,7 @@ func init() {
 		ID:        "C16",
 		Technique: "static analysis: truth-table check of the data-order predicates and of the iterator decisions over all participants' orders; order-agreement goals on raw two-tensor accesses and exporters; BLAS-gateway order goals; stride-routine selection by order",
 		Explain: "Decides: (L0) IsColMajor/IsRowMajor/HasSameOrder are what they claim and prepDataVV/VS/SV/Unary iterate whenever two participants disagree on data order; (L3) raw two-tensor accesses (Copy, Float32/64Engine.Add) and row-major-only kernels (ReduceFirst/ReduceLast) are conditioned on the data order; (L4) exporters into row-major formats consult it; (LB) BLAS gateways derive leading dimensions from each operand's order; (LD) every argument of every BLAS call is the one the operands' and the result's data order and lazy-transpose state require (all 32 layout cases of MatMul, 4 of MatVecMul, Outer, Inner); (T4) stride routines are selected by order in calcStrides and Transpose; (S10) the two stride calculators are one recurrence run in opposite directions; (S11) whoever flips the column-major bit recomputes the strides; (S12) AP.S picks the outermost axis by data order and marks column-major slices non-contiguous; (K3/K1arms) the typed arms of the BLAS gateways agree with each other (an operand swap in one precision is reported); (LC/LF) new raw copies / flat element loops must be layout-guarded and (LF) order-aware. Several of these fail on the pinned tree and are listed as known findings (17-19, 21, 40, 41). " +
-			"Not decided: block-size arithmetic of stack/concat under column-major (seed R2C16b is not caught); StackDense order agreement. Round 11: the exporter's order goal also covers arguments passed through Materialize(), which is the identity on contiguous column-major tensors.",
+			"Not decided: block-size arithmetic of stack/concat under column-major (seed R2C16b is not caught); StackDense order agreement. Round 11: the exporter's order goal also covers arguments passed through Materialize(), which is the identity on contiguous column-major tensors. Round 15: (O6) a recycled tensor header carries no data-order flag.",
 		Run: func(rc *rules.RC) {
 			rules.O6(rc)
 			rules.SM(rc)
@@ -571,7 +571,7 @@ func init() {
 		ID:        "C19",
 		Technique: "static analysis: interprocedural ownership analysis over go/ssa (origin tracing with fixpoint summaries returns-param / retains / writes / recycles), mod-set of the recycle function, unique-owner rule for pool-managed access patterns",
 		Explain: "A history-quantified property becomes per-site ownership invariants decided over every function: (O1,O2,O3) no exported function recycles, retains or mutates a caller's []int/Shape/[]Slice/[]bool argument, directly or through any chain of callees (summaries by fixpoint; documented sharing is a named exception table); (O6) ReturnTensor stores a zero value into every leaf field of Dense before pooling it; (O7) ReturnTensor inside the library receives only tensors created in that function, or a parameter under the not-the-reuse-tensor guard; (O8) an access pattern (whose shape/strides slices AP.zero and SetShape return to the ints pool) read out of one object is stored elsewhere only as a move or after Clone, no exported function returns such an alias, no local alias is zeroed into the pool; (T2) the lazy-transpose triple is cleared together; (O10) every freeScalar call lies under the newAlloc flag of scalarToHeader/prepDataVS/prepDataSV, so a scalar operand that is a tensor (aliased, not copied) is never zeroed and pooled. If no live object can reach a slice in the free list and no caller slice is kept, written or recycled, no operation history can corrupt through that channel. " +
-			"Not decided: corruption through backing arrays the API documents as shared; use-after-return inside one function (O9) beyond the rules above. Round 7: (PO) publish-last in the pool return functions; (EP) a refused call leaves its receiver and arguments unchanged. Round 11: (P2) no exported read-only operation writes an operand, through any chain of callees; (O13); (AD). Round 13: (SR) no operation returns a second header of an operand as its result; (SA).",
+			"Not decided: corruption through backing arrays the API documents as shared; use-after-return inside one function (O9) beyond the rules above. Round 7: (PO) publish-last in the pool return functions; (EP) a refused call leaves its receiver and arguments unchanged. Round 11: (P2) no exported read-only operation writes an operand, through any chain of callees; (O13); (AD). Round 13: (SR) no operation returns a second header of an operand as its result; (SA). Round 15: (T1/T2) old and transposeWith are cleared together; (O6p).",
 		Assume: []string{"interface calls resolve to the module's implementing types (CHA restricted to the module)", "flow-insensitive origin tracing through locals and captured variables (over-approximates aliases)"},
 		Run: func(rc *rules.RC) {
 			rules.O6p(rc)
